@@ -42,7 +42,7 @@ def register(R):
     # the service may have applied the call although it raised (fault after effect)
     R.external('client', **{'*': ExtSpec(returns=ExtT('respdict'), raises=('Exception',), effect_on_raise=False),
                             # the request itself can fail with a retryable connection / timeout error
-                            'get_object': ExtSpec(returns=ExtT('respdict'), raises=('Exception', 'socket.timeout'))})
+                            'get_object': ExtSpec(returns=ExtT('respdict'), raises=('Exception', 'socket.timeout', 'OSError'))})
     R.external('respdict', **{'[]': ExtSpec(returns=resp_item, pure=True)})
 
     # ------------------------------------------------------------------ CreateMultipartUploadTask
